@@ -16,7 +16,7 @@ from fractions import Fraction
 
 from fpy2.analysis import (Alias, ArraySizeInfer, ContextUse, DefineUse, Escape, LiveVars, PartialEval, Purity,
                            TypeInfer, TypeInferError, ValueClass, ValueClassInfer)
-from fpy2.analysis.array_size import ListSize, TupleSize
+from fpy2.analysis.array_size import ListSize, TupleSize, is_size_eq
 from fpy2.analysis.call_graph import CallGraphError
 from fpy2.analysis.reaching_defs import AssignDef, PhiDef
 from fpy2.analysis.syntax_check import FPySyntaxError
@@ -232,6 +232,15 @@ def check_size(v, bound, symvals, where='outer'):
                 yield from check_size(x, b, symvals, where)
 
 
+def size_sig(v, bound):
+    """Nested lengths of v as far as the bound describes them (the thing `is_size_eq` claims two values share)."""
+    if isinstance(bound, ListSize) and isinstance(v, list):
+        return ('L', len(v), tuple(sorted({size_sig(x, bound.elt) for x in v}, key=repr)))
+    if isinstance(bound, TupleSize) and isinstance(v, tuple) and len(v) == len(bound.elts):
+        return ('T',) + tuple(size_sig(x, b) for x, b in zip(v, bound.elts))
+    return ()
+
+
 def expr_kind(e):
     return type(e).__name__
 
@@ -298,6 +307,7 @@ def check_run(facts: Facts, rec, result, stats: dict, rows=True):
     symseen = {}
 
     fails = {'type': {}, 'size': {}, 'value_class': {}, 'const': {}}
+    sized = []
     for idx, obs in rec.expr_obs.items():
         e = nodes[idx]
         if not isinstance(e, Expr):
@@ -328,6 +338,8 @@ def check_run(facts: Facts, rec, result, stats: dict, rows=True):
                     symseen.setdefault(k, []).append((e, sorted(sset)))
                 if bad is not None and e not in fails['size']:
                     fails['size'][e] = bad
+            if len(sized) < 40 and isinstance(b, (ListSize, TupleSize)):
+                sized.append((e, b, {size_sig(v, b) for v in obs}))
         # ---- value class
         if vc is not None and isinstance(vc.by_expr.get(e), ValueClass):
             fact = vc.by_expr[e]
@@ -400,6 +412,22 @@ def check_run(facts: Facts, rec, result, stats: dict, rows=True):
                 cause = 'zip-or-assert-not-on-every-path' if _has_constraint_source(facts.ast) else \
                     '+'.join(sorted({expr_kind(x) for x, _ in symseen[k]}))
             out.append((f'size/symbolic-unequal/{cause}', f'one length for size variable {k}', sorted(s), exprs))
+
+    # ---- size: two bounds the published predicate `is_size_eq` calls equal describe values of equal nested lengths
+    #      (only judged on runs with no other size failure, so a stale bound is reported once, under its own bucket)
+    if not fails['size'] and all(len(x) <= 1 for x in symvals.values()):
+        for i in range(len(sized)):
+            for j in range(i + 1, len(sized)):
+                (e1, b1, s1), (e2, b2, s2) = sized[i], sized[j]
+                if is_size_eq(b1, b2):
+                    add('facts:size-eq-pair')
+                    if len(s1 | s2) > 1:
+                        out.append((f'size/is_size_eq-but-shapes-differ/{expr_kind(e1)}+{expr_kind(e2)}', 'equal nested lengths',
+                                    [repr(x)[:80] for x in sorted(s1 | s2, key=repr)][:4], f'{e1.format()} ~ {e2.format()}'))
+                        break
+            else:
+                continue
+            break
 
     # ---- result
     if ti is not None:
